@@ -7,6 +7,7 @@ import FpgoVerif.Model.C20Match
     Case lines (see harness/c20.go for the same grammar on the Go side):
       cp <C|CI|P|PI> <ints>: f ; f ; …            Compose / ComposeInterface / Pipe / PipeInterface
       cg <C|P> <k> <ints>: f ; f ; …              regrouped at k: X(X(fs[:k]), X(fs[k:]))
+      ru <steps> <ints>: f ; f ; …                one slice reused: steps C P I J g<k> h<k> x, comma separated
       ad <adapter> <bound ints>: <ints>           one adapter call
       tr <kd> <ke> <mode>: <ints>                 Trampoline with the step family
       cu <G|I> <n>: c:<ints> ; d ; r ; i ; …      CurryDef script (Call / MarkDone / Result / IsDone)
@@ -78,6 +79,53 @@ def runCG (impl : Bool) (variant : String) (k : Nat) (input : List Int) (fs : Li
     let a := fs.take k; let b := fs.drop k
     showRes (if isCompose then compose [compose a, compose b] input else pipe [pipe a, pipe b] input)
   else showRes (if isCompose then compose fs input else pipe fs input)
+
+/-! ## repeated use of one caller-owned function slice (`ru` cases)
+
+    The caller builds the slice `fs` once and spreads it (`X(fs...)`, sub-slices for the regroupings) into
+    several combinator calls.  A combinator call is modelled as returning the composed function *and* the
+    caller's slice as it is afterwards — the combinators only read it. -/
+
+/-- `X(fs...)`: the composed function and the caller's slice afterwards -/
+def applyComb {α : Type} (comb : List (Fn α) → Fn α) (fs : List (Fn α)) : Fn α × List (Fn α) := (comb fs, fs)
+
+/-- `X(X(fs[:k]...), X(fs[k:]...))` for `0 < k < len`, plain `X(fs...)` otherwise -/
+def applyRegroup {α : Type} (comb : List (Fn α) → Fn α) (k : Nat) (fs : List (Fn α)) : Fn α × List (Fn α) :=
+  if 0 < k && k < fs.length then
+    let (a, fs1) := applyComb comb (fs.take k)
+    let (b, fs2) := applyComb comb (fs.drop k)
+    (comb [a, b], fs1 ++ fs2)
+  else applyComb comb fs
+
+structure RuState where
+  fs : List (Fn Int)            -- the caller's slice
+  built : List (Fn Int)         -- composed functions, in build order
+  outs : List String            -- segments printed so far
+
+def showSeg (rs : List (Res (List Int))) : String := " | ".intercalate (rs.map showRes)
+
+/-- one step of a `ru` script: `C`/`I` Compose(Interface), `P`/`J` Pipe(Interface), `g<k>`/`h<k>` regrouped
+    Compose/Pipe, `x` run everything built so far -/
+def ruStep (cmp pip : List (Fn Int) → Fn Int) (input : List Int) (st : RuState) (tok : String) : RuState :=
+  let add (r : Fn Int × List (Fn Int)) : RuState := { st with fs := r.2, built := st.built ++ [r.1] }
+  if tok == "C" || tok == "I" then add (applyComb cmp st.fs)
+  else if tok == "P" || tok == "J" then add (applyComb pip st.fs)
+  else if tok.startsWith "g" then add (applyRegroup cmp ((dropS tok 1).toNat?.getD 0) st.fs)
+  else if tok.startsWith "h" then add (applyRegroup pip ((dropS tok 1).toNat?.getD 0) st.fs)
+  else if tok == "x" then { st with outs := st.outs ++ [showSeg (st.built.map (fun f => f input))] }
+  else st
+
+def ruRun (cmp pip : List (Fn Int) → Fn Int) (script : List String) (input : List Int) (fs : List (Fn Int)) : RuState :=
+  script.foldl (ruStep cmp pip input) ⟨fs, [], []⟩
+
+/-- observation: the `x` segments, two passes over all built functions, then every element of the caller's
+    slice applied alone (twice: the `[]func(...int)` slice and its boxed `interface{}` twin) -/
+def runRU (impl : Bool) (script : String) (input : List Int) (fs : List (Fn Int)) : String :=
+  let st := if impl then ruRun compose pipe (script.splitOn ",") input fs
+            else ruRun Spec.compose Spec.pipe (script.splitOn ",") input fs
+  let pass := showSeg (st.built.map (fun f => f input))
+  let own := showSeg ((if impl then st.fs else fs).map (fun f => f input))
+  " # ".intercalate (st.outs ++ [pass, pass, own, own])
 
 /-! ## adapters -/
 
@@ -316,6 +364,8 @@ def run (impl : Bool) (line : String) : String :=
     runCP impl variant (parseInts input) ((toks body).map fnOfTok)
   | ["cg", variant, k, input] =>
     runCG impl variant (k.toNat?.getD 0) (parseInts input) ((toks body).map fnOfTok)
+  | ["ru", script, input] =>
+    runRU impl script (parseInts input) ((toks body).map fnOfTok)
   | ["ad", name, b] =>
     showRes ((if impl then runAdapterImpl else runAdapterSpec) name (parseInts b) (parseInts body.trimAscii.toString))
   | ["tr", kd, ke, mode] =>
